@@ -465,6 +465,12 @@ func (c *Ctx) ruleShortRead(rule string, in func(*ssa.Function) bool) int {
 					}
 				}
 			}
+			if !used && c.contentNeverRead(call.Common().Args[0]) {
+				// a drain: the bytes go into a scratch buffer that nothing ever reads from, so
+				// there is no value that a short read could leave half filled
+				c.R.Okf(rule, name(fn), construct, c.IPos(i), "the buffer handed to Read is scratch space whose content is never read: the data is thrown away, the count does not matter")
+				return
+			}
 			c.R.Check(used, rule, name(fn), construct, c.IPos(i), "the byte count of a direct Read on a dependency is looked at",
 				"the count returned by Read is discarded: a short read with a nil error leaves the rest of the buffer zero and is taken for the whole value")
 		})
